@@ -247,7 +247,10 @@ where
     }
 
     fn call(&mut self, req: Req) -> Self::Future {
-        let mut service = self.inner.clone();
+        // Take the instance that `poll_ready` was called on (a fresh clone has not been
+        // polled and may not be ready) and leave a clone in its place.
+        let clone = self.inner.clone();
+        let mut service = std::mem::replace(&mut self.inner, clone);
         let config = Arc::clone(&self.config);
 
         // Extract max_attempts from request before moving it
@@ -366,6 +369,9 @@ where
 
                         tokio::time::sleep(delay).await;
                         attempt += 1;
+
+                        // The service must be ready again before the next attempt
+                        futures::future::poll_fn(|cx| service.poll_ready(cx)).await?;
                     }
                 }
             }
